@@ -917,7 +917,7 @@ def chk_batch(sc, rng):
     n = sc.x.size
     if n == 0:
         return None
-    tol = 1e-11
+    tol = RTOL
     # on the hull itself (within rounding) qhull's answer depends on where
     # its directed search starts, i.e. on the preceding event: NaN-ness is
     # compared outside the band only
